@@ -551,6 +551,10 @@ def newton_guesses(tag, tier, ic):
     return out
 
 
+# EOS kind -> (index of the constant in the tag, public setter, factor by which the first solve's constant is off)
+RESOLVE_SETTERS = {"noble_abel": (2, "set_new_co_volume", 3.0), "carnahan": (2, "set_new_co_volume", 3.0), "stiff": (2, "set_new_sound_speed", 1.3)}
+
+
 def run_newton(task):
     from exactpack.solvers.nohblackboxeos import blackboxnoh as B
     tier = task["tier"]
@@ -569,8 +573,19 @@ def run_newton(task):
     # given its function once and then only new starting guesses (multi-start); a 'converged' state must satisfy the jump
     # conditions in both (the second was added after the seeded change S2-C16-3: stale convergence state between solves)
     shared = {"ns": None, "eos": None}
-    for mode, (label, guess) in [(m_, lg) for m_ in ("frontend", "one-newton-object") for lg in newton_guesses(tag, tier, (r0, u0, p0))]:
-        eos = make_eos(tag) if mode == "frontend" else (shared["eos"] or make_eos(tag))
+    # third mode (EOS classes with public setters): the wrapper is built and solved on an EOS whose constant is off by a factor, the
+    # constant is then set to the task's value through the EOS's public setter and solve_jump_conditions() is called again -- the
+    # state it reports as converged must satisfy the jump conditions of the EOS as it now is (added after the seeded change
+    # S3-C16-3: solve_jump_conditions() returned early when a solution was cached)
+    modes = ["frontend", "one-newton-object"] + (["re-solve-after-eos-setter"] if tag[0] in RESOLVE_SETTERS else [])
+    for mode, (label, guess) in [(m_, lg) for m_ in modes for lg in newton_guesses(tag, tier, (r0, u0, p0))]:
+        if mode == "re-solve-after-eos-setter":
+            idx, setter, fac = RESOLVE_SETTERS[tag[0]]
+            alt = list(tag)
+            alt[idx] = alt[idx] * fac
+            eos = make_eos(alt)
+        else:
+            eos = make_eos(tag) if mode == "frontend" else (shared["eos"] or make_eos(tag))
         try:
             with contextlib.redirect_stdout(io.StringIO()):
                 if (r0, u0, p0) == (1, -1, 0):
@@ -602,6 +617,15 @@ def run_newton(task):
             with contextlib.redirect_stdout(io.StringIO()):
                 if mode == "frontend":
                     s.solve_jump_conditions()
+                elif mode == "re-solve-after-eos-setter":
+                    try:
+                        s.solve_jump_conditions()
+                        C["first_solves_before_the_setter_converged"] = C.get("first_solves_before_the_setter_converged", 0) + 1
+                    except Exception:
+                        pass
+                    getattr(eos, setter)(tag[idx])
+                    s.solve_jump_conditions()
+                    C["re_solves_after_eos_setter"] = C.get("re_solves_after_eos_setter", 0) + 1
                 else:
                     from exactpack.solvers.nohblackboxeos.solution_tools import newton_solver, pressure_noh_residual
                     if shared["ns"] is None:
